@@ -17,8 +17,15 @@ Vocabulary(lang) ==
 \* obs: [lang, used (seq), provided (seq: names defined or imported in the file, plus the shared helper file),
 \*       typevars (seq: generic parameter names of the program that this file uses), functions_used (seq: serializer helper
 \*       functions referenced), requires (seq: helper definitions the configuration makes necessary)]
-Ok(o) == LET used == ToSet(o.used) provided == ToSet(o.provided) IN
-    /\ \A n \in used \cap Vocabulary(o.lang) : n \in provided
+\* what the helper functions typeshare emits refer to themselves
+FunctionNeeds(f) == IF f \in {"parse_rfc3339", "serialize_datetime_data"} THEN {"datetime"} ELSE {}
+\* user_names: identifiers that occur in the TARGET text of a configured type mapping (e.g. `time` in "time.Time"): where such a
+\* name is in the file only because the user's mapping put it there, it is the user's name, not typeshare's - unless a helper
+\* function that typeshare emits needs it too
+Ok(o) == LET used == ToSet(o.used) provided == ToSet(o.provided)
+             own == UNION {FunctionNeeds(f) : f \in ToSet(o.functions_used)}
+             users == ToSet(o.user_names) \ own IN
+    /\ \A n \in (used \cap Vocabulary(o.lang)) \ users : n \in provided
     /\ \A n \in ToSet(o.typevars) : n \in provided                 \* Python TypeVars for every generic parameter in use
     /\ \A n \in ToSet(o.functions_used) : n \in provided           \* custom (de)serialiser functions referenced by Annotated[...]
     /\ \A n \in ToSet(o.requires) : n \in provided                 \* e.g. TypeScript ReviverFunc/ReplacerFunc when a mapped Date/Uint8Array is used
